@@ -96,6 +96,21 @@ func (c *ChunkBuffer) Write(s string, t ChunkType) {
 	})
 }
 
+// endsWithLineComment() returns true if the last chunk is a line comment
+func (c *ChunkBuffer) endsWithLineComment() bool {
+	return len(c.chunks) > 0 && c.chunks[len(c.chunks)-1].isLineComment()
+}
+
+// TrimmedString() returns the "No" chunked string without surrounding white spaces
+// but keeps the line feed that must follow a line comment
+func (c *ChunkBuffer) TrimmedString() string {
+	out := strings.TrimSpace(c.String())
+	if c.endsWithLineComment() {
+		out += "\n"
+	}
+	return out
+}
+
 // Get "No" chunked string
 func (c *ChunkBuffer) String() string {
 	buf := bufferPool.Get().(*bytes.Buffer) // nolint:errcheck
@@ -155,7 +170,12 @@ func (c *ChunkBuffer) ChunkedString(level, offset int) string {
 	for {
 		chunk := c.nextChunk()
 		if chunk == nil {
-			return strings.TrimSpace(buf.String())
+			out := strings.TrimSpace(buf.String())
+			// Keep the line break after a line comment, the caller continues the statement
+			if c.endsWithLineComment() {
+				out += c.nextLine(state)
+			}
+			return out
 		}
 
 		switch chunk.Type {
@@ -208,6 +228,9 @@ func (c *ChunkBuffer) combineInfixChunk() string {
 		// If peek chunk is Comment, should be combined and look up next chunk
 		case Comment:
 			expr.WriteString(" " + peek.buffer)
+			if peek.isLineComment() {
+				expr.WriteString("\n")
+			}
 		default:
 			return ""
 		}
@@ -230,6 +253,9 @@ OUT:
 		}
 		if peek.Type == Comment {
 			expr.WriteString(" " + peek.buffer)
+			if peek.isLineComment() {
+				expr.WriteString("\n")
+			}
 			continue
 		}
 		break
